@@ -46,12 +46,12 @@ const retTTL = 1000 * time.Hour // leases granted while a population is built ne
 
 type retGeom struct {
 	name     string
-	explicit bool             // received_at handed to the store (true) or stamped by it from the injected clock (false)
-	I, A, D  time.Duration    // prune_interval, max_age of queued and dead messages, max_age of delivered messages
-	rcv      [3]int64         // received_at of an old / edge / fresh message
-	built    [3]int64         // clock while messages of that age class are built (delivery instant of a delivered one)
-	base     int64            // clock at the end of the build; the last prune ran at qsys.T0 (arming step)
-	pos      [4]int64         // instants of a preview / real run: prune not due, 1 ns before due, due exactly now, overdue
+	explicit bool          // received_at handed to the store (true) or stamped by it from the injected clock (false)
+	I, A, D  time.Duration // prune_interval, max_age of queued and dead messages, max_age of delivered messages
+	rcv      [3]int64      // received_at of an old / edge / fresh message
+	built    [3]int64      // clock while messages of that age class are built (delivery instant of a delivered one)
+	base     int64         // clock at the end of the build; the last prune ran at qsys.T0 (arming step)
+	pos      [4]int64      // instants of a preview / real run: prune not due, 1 ns before due, due exactly now, overdue
 }
 
 var (
@@ -119,7 +119,9 @@ type retKind struct {
 	rcv          int
 }
 
-func (k retKind) String() string { return fmt.Sprintf("{%s %s %s}", k.route, k.state, retRcvName[k.rcv]) }
+func (k retKind) String() string {
+	return fmt.Sprintf("{%s %s %s}", k.route, k.state, retRcvName[k.rcv])
+}
 
 var retStates = []string{qmodel.Queued, qmodel.Leased, qmodel.Delivered, qmodel.Dead, qmodel.Canceled}
 
@@ -885,8 +887,8 @@ func retIDOps(n int) []qmodel.Op {
 
 type retCounters struct {
 	runs, steps, prunedRuns, pastRuns, pastDueRuns, changedRuns, previewGtReal, leaseProbes, pops int64
-	distinct                                                                                     map[string]struct{}
-	reported                                                                                     map[string]bool
+	distinct                                                                                      map[string]struct{}
+	reported                                                                                      map[string]bool
 }
 
 func newRetCounters() *retCounters {
@@ -1074,10 +1076,11 @@ func (e *retEnv) runCase(r *runner.Run, cs *retCase, c *retCounters) bool {
 	}
 	c.reported[key] = true
 	desc := retDesc(cs.ks, cs.pop)
-	// which of several equally old dead messages a max_depth prune removes is the implementation's free choice (it
-	// differs from run to run on the memory backend): a failure that depends on it reproduces only in some re-runs
+	// which of several equally old dead messages a max_depth prune removes is the implementation's free choice (on the
+	// memory backend it follows the map iteration order: about one run in eight goes the other way): a failure that
+	// depends on it reproduces only in some re-runs
 	recheck := func() bool {
-		for i := 0; i < 16; i++ {
+		for i := 0; i < 200; i++ {
 			if o2 := e.run(cs); o2.infra == nil && o2.what == out.what {
 				return true
 			}
@@ -1100,6 +1103,7 @@ type retPlan struct {
 	opLevel        int
 	scenLevel      int
 	idOps          bool
+	workers        int // layer plans: goroutines, each with an environment of its own (0 = 1)
 }
 
 func (p retPlan) wantsCfg(name string) bool {
@@ -1128,7 +1132,19 @@ func (p retPlan) items() []retItem {
 				continue
 			}
 			ks := retAllKinds()
-			for _, pop := range retPops(ks, p.popLevel) {
+			pops := retPops(ks, p.popLevel)
+			// populations with messages that retention can remove come first (only matters when a time budget ends the part early)
+			score := func(pop []int) int {
+				n := 0
+				for _, ki := range pop {
+					if k := ks[ki]; k.rcv != 2 && (k.state == qmodel.Dead || k.state == qmodel.Queued) {
+						n++
+					}
+				}
+				return n
+			}
+			sort.SliceStable(pops, func(a, b int) bool { return score(pops[a]) > score(pops[b]) })
+			for _, pop := range pops {
 				skip := false
 				for _, ki := range pop {
 					if ks[ki].state == qmodel.Delivered && cf.c.DeliveredMaxAge == 0 {
@@ -1201,17 +1217,18 @@ func retStorePlans(r *runner.Run) []retPlan {
 func retLayerPlans(r *runner.Run) []retPlan {
 	if r.Quick() {
 		return []retPlan{
-			{layer: "admin", backend: "memory", geoms: []int{0}, popLevel: 0, opLevel: 0, scenLevel: 0},
+			{layer: "admin", backend: "memory", geoms: []int{0}, popLevel: 0, opLevel: 0, scenLevel: 0, workers: 2},
 			{layer: "admin", backend: "sqlite", geoms: []int{0}, cfgs: []string{"all"}, popLevel: -1, opLevel: 0, scenLevel: 0, idOps: true},
 			{layer: "mcp-proxy", backend: "memory", geoms: []int{0}, cfgs: []string{"all"}, popLevel: -1, opLevel: 0, scenLevel: 0},
 			{layer: "mcp", backend: "sqlite", geoms: []int{0}, cfgs: []string{"all"}, popLevel: -1, opLevel: 0, scenLevel: -1},
 		}
 	}
 	return []retPlan{
-		{layer: "admin", backend: "memory", geoms: []int{0, 1}, popLevel: 1, opLevel: 1, scenLevel: 1, idOps: true},
-		{layer: "admin", backend: "sqlite", geoms: []int{0, 1}, popLevel: 0, opLevel: 1, scenLevel: 0, idOps: true},
-		{layer: "mcp-proxy", backend: "memory", geoms: []int{0, 1}, popLevel: 0, opLevel: 1, scenLevel: 0, idOps: true},
-		{layer: "mcp", backend: "sqlite", geoms: []int{0, 1}, cfgs: []string{"dlq_retention.max_age", "all"}, popLevel: 0, opLevel: 0, scenLevel: 0, idOps: true},
+		{layer: "admin", backend: "memory", geoms: []int{0, 1}, popLevel: 1, opLevel: 1, scenLevel: 0, idOps: true, workers: 4},
+		{layer: "admin", backend: "memory", geoms: []int{0, 1}, popLevel: 0, opLevel: 1, scenLevel: 1, idOps: true, workers: 3},
+		{layer: "admin", backend: "sqlite", geoms: []int{0, 1}, popLevel: 0, opLevel: 1, scenLevel: 0, idOps: true, workers: 2},
+		{layer: "mcp-proxy", backend: "memory", geoms: []int{0, 1}, popLevel: 0, opLevel: 1, scenLevel: 0, idOps: true, workers: 2},
+		{layer: "mcp", backend: "sqlite", geoms: []int{0, 1}, cfgs: []string{"dlq_retention.max_age", "all"}, popLevel: 0, opLevel: 0, scenLevel: 0, idOps: true, workers: 2},
 	}
 }
 
@@ -1230,8 +1247,11 @@ func retentionStoreJob(r *runner.Run, ji, shards, worker int, budget time.Durati
 	if !retSelfCheck(r) {
 		return
 	}
-	deadline := time.Now().Add(budget)
-	for _, p := range retStorePlans(r) {
+	end := time.Now().Add(budget)
+	plans := retStorePlans(r)
+	for i, p := range plans {
+		// every plan gets an equal slice of what is left of the budget; time a plan does not use goes to the later ones
+		deadline := time.Now().Add(time.Until(end) / time.Duration(len(plans)-i))
 		e, _ := newRetEnv(p.layer, p.backend, worker)
 		c := newRetCounters()
 		p.runItems(r, e, p.items(), ji, shards, deadline, c)
@@ -1249,21 +1269,14 @@ func retentionLayersPart(r *runner.Run) {
 	}
 	deadline := start.Add(runner.Pick(r, 30*time.Second, 5*time.Minute))
 	var wg sync.WaitGroup
-	for _, p := range retLayerPlans(r) {
-		workers := 1
-		if p.layer == "admin" && p.backend == "memory" {
-			workers = runner.Pick(r, 2, 4)
-		}
+	for pi, p := range retLayerPlans(r) {
+		workers := max(p.workers, 1)
 		items := p.items()
 		for wi := 0; wi < workers; wi++ {
 			wg.Add(1)
 			go func(p retPlan, wi, workers int) {
 				defer wg.Done()
-				worker := wi
-				if p.backend == "sqlite" {
-					worker += 20 // scratch directories are named by layer and worker number only
-				}
-				e, err := newRetEnv(p.layer, p.backend, worker)
+				e, err := newRetEnv(p.layer, p.backend, pi*8+wi) // scratch directories are named by layer and worker number
 				if err != nil {
 					r.Infra("c14 retention (%s/%s): %v", p.layer, p.backend, err)
 					return
